@@ -1,6 +1,7 @@
 import Proofs.Core
 import Proofs.SpecLemmas
 import SynapModel.Ops
+import Proofs.SpecOps
 /-!
 # C05 — Forward results of tensor ops match the NumPy / PyTorch definition they mirror
 
@@ -311,5 +312,41 @@ theorem operator_forms (st : TState α) (a : Nat) (s : α) :
     applySOp st .divS a (.inr s) = (scalarOperand st (Transc.pow s (-1)) a).bind (fun (st1, S) => one1 (apply st1 .mul [a, S])) ∧
     applySOp st .neg a (.inr s) = (scalarOperand st (-1) a).bind (fun (st1, S) => one1 (apply st1 .mul [a, S])) := by
   exact ⟨rfl, rfl, rfl, rfl⟩
+
+/-! ### Every other tensor op: acceptance condition, output shape, entry formula
+
+The statements (with their proofs and a concrete `example` each) are in `Proofs/SpecOps.lean`, a file that holds nothing
+but these specification theorems and their `so_`-prefixed helper lemmas; they are re-exported here so that the audit of this
+namespace covers them.  Reading, for all ranks / sizes / arguments, over any commutative ring (ordered field for max / min / mean):
+* `transpose_spec`   accepted ⇔ both dims in [-n, n); shape = sizes swapped; `y[j] = x[j with positions a, b swapped]`; `transpose_same`: same dim twice = identity
+* `movedim_spec`     accepted ⇔ both dims in range; shape = source axis removed and re-inserted at destination; entry through that permutation
+* `reshape_spec`     accepted ⇔ sizes agree (one −1 resolved by division); row-major data unchanged
+* `squeeze_all/one/many_spec`, `unsqueeze_spec`  which axes disappear / appear; data unchanged
+* `concat_spec`      accepted ⇔ non-empty, dim in range, equal ranks and equal shapes off the axis; shape; `y[j]` read from the operand whose running-offset block contains `j[a]`
+* `stack_spec`       accepted ⇔ non-empty, dim in [-(n+1), n+1), equal shapes; `y[insert k at a into q] = xs[k][q]`
+* `unbind_spec`      one output per index along the axis, `ys[k][q] = x[insert k at a into q]`
+* `index_spec`       the whole supported index language (ints incl. negative, slices with any non-zero step, one `...`, `None`, one integer list): acceptance, shape, entry position per axis; `slice_positions_pos/neg`: Python's slice arithmetic selects exactly start, start+step, … inside [start, stop)
+* `mul_spec`, `neg_spec`, `mean_spec` (sum of the fibre / number of its elements, `mean_count`), `max_spec`, `min_spec` (attained on the fibre and dominating it) -/
+alias transpose_spec := Proofs.SpecOps.transpose_spec
+alias transpose_same := Proofs.SpecOps.transpose_same
+alias movedim_spec := Proofs.SpecOps.movedim_spec
+alias movedim_entry := Proofs.SpecOps.movedim_entry
+alias reshape_spec := Proofs.SpecOps.reshape_spec
+alias squeeze_all_spec := Proofs.SpecOps.squeeze_all_spec
+alias squeeze_one_spec := Proofs.SpecOps.squeeze_one_spec
+alias squeeze_many_spec := Proofs.SpecOps.squeeze_many_spec
+alias unsqueeze_spec := Proofs.SpecOps.unsqueeze_spec
+alias concat_spec := Proofs.SpecOps.concat_spec
+alias stack_spec := Proofs.SpecOps.stack_spec
+alias unbind_spec := Proofs.SpecOps.unbind_spec
+alias index_spec := Proofs.SpecOps.index_spec
+alias slice_positions_pos := Proofs.SpecOps.slice_positions_pos
+alias slice_positions_neg := Proofs.SpecOps.slice_positions_neg
+alias mul_spec := Proofs.SpecOps.mul_spec
+alias neg_spec := Proofs.SpecOps.neg_spec
+alias mean_spec := Proofs.SpecOps.mean_spec
+alias mean_count := Proofs.SpecOps.mean_count
+alias max_spec := Proofs.SpecOps.max_spec
+alias min_spec := Proofs.SpecOps.min_spec
 
 end Props.C05
